@@ -13,12 +13,12 @@ theorem readQ_of_regs {regs : Reg → Option Int} {r : Reg} {v : Int} {i : Nat}
 
 /-- assembling the conclusion of `ExpandSound` when the registers are untouched -/
 theorem finish_plain {C Q : Type} {A : QAction Q} {Mc : Sem (C × Q)} {ex : List Instr}
-    {s u s' : St (C × Q)} {gi : GI} {used : List Reg}
+    {s u s' : St (C × Q)} {gi : GI} {used : List Reg} {info : ClsInfo}
     (hs' : s' = ⟨s.regs, (s.mem.1, A.act gi s.mem.2)⟩) (hmem : s.mem = u.mem)
     (hrun : RunStraight (MQ A Mc) (serialise ex) ⟨u.regs, (u.mem.1, u.mem.2)⟩
       ⟨u.regs, (u.mem.1, A.act gi u.mem.2)⟩) :
     ∃ u', RunStraight (MQ A Mc) (serialise ex) u u' ∧ s'.mem = u'.mem ∧
-      ∀ r, (∀ s0, getUnused used = .ok s0 → r ≠ s0) → u'.regs r = u.regs r :=
+      ∀ r, (info.gate2 = true → ∀ s0, getUnused used = .ok s0 → r ≠ s0) → u'.regs r = u.regs r :=
   ⟨_, hrun, by rw [hs', hmem], fun _ _ => rfl⟩
 
 theorem movExec_some {C Q : Type} {A : QAction Q} {g : Instr} {s s' : St (C × Q)}
@@ -62,7 +62,7 @@ theorem expandSound_mov {C Q : Type} (A : QAction Q) (hA : QLawful A) (Mc : Sem 
     (hmem : s.mem = u.mem) (hregs : ∀ r ∈ topRegs g, s.regs r = u.regs r)
     (he : (MQ A Mc).exec g s = some s') (hm : g.cls = movCls) :
     ∃ u', RunStraight (MQ A Mc) (serialise ex) u u' ∧ s'.mem = u'.mem ∧
-      ∀ r, (∀ s0, getUnused used = .ok s0 → r ≠ s0) → u'.regs r = u.regs r := by
+      ∀ r, (info.gate2 = true → ∀ s0, getUnused used = .ok s0 → r ≠ s0) → u'.regs r = u.regs r := by
   obtain ⟨hmemI, hcls⟩ := infoOf_cls hi
   have hC' := hC
   unfold ClsTie at hC'
@@ -111,7 +111,7 @@ theorem expandSound_mov {C Q : Type} (A : QAction Q) (hA : QLawful A) (Mc : Sem 
   -- electron → carbon, shared by the known and the unknown path
   have caseEC : i0 = 0 → useTemplate cfg ("mov_ec" ++ sfx cfg) g r0 r1 r0 = .ok ex →
       ∃ u', RunStraight (MQ A Mc) (serialise ex) u u' ∧ s'.mem = u'.mem ∧
-        ∀ r, (∀ s0, getUnused used = .ok s0 → r ≠ s0) → u'.regs r = u.regs r := by
+        ∀ r, (info.gate2 = true → ∀ s0, getUnused used = .ok s0 → r ≠ s0) → u'.regs r = u.regs r := by
     intro h0 hx
     have htr : A.transfer (movPhi true) i0 i1 u.mem.2 = some q' := by
       rcases hdir with ⟨_, h⟩ | ⟨hn, _, _⟩
@@ -309,7 +309,7 @@ theorem expandSound_of_C07 {C Q : Type} (A : QAction Q) (hA : QLawful A) (Mc : S
             | .ok s => useTemplate cfg kCC g r0 r1 s
             | .error e => .error e) = .ok ex →
         ∃ u', RunStraight (MQ A Mc) (serialise ex) u u' ∧ s'.mem = u'.mem ∧
-          ∀ r, (∀ s0, getUnused used = .ok s0 → r ≠ s0) → u'.regs r = u.regs r := by
+          ∀ r, (info.gate2 = true → ∀ s0, getUnused used = .ok s0 → r ≠ s0) → u'.regs r = u.regs r := by
       intro kEC kCE kCC swapCE tEC tCE tCC hx
       by_cases h0 : (v0 == 0) = true
       · -- electron → carbon
@@ -400,7 +400,7 @@ theorem expandSound_of_C07 {C Q : Type} (A : QAction Q) (hA : QLawful A) (Mc : S
             refine ⟨u', hrun, ?_, ?_⟩
             · rw [hm', hs', hgie, hmem]; simp
             · intro r hr
-              exact hr' r (hr sreg rfl)
+              exact hr' r (hr hg2 sreg rfl)
     rcases hgn with ⟨htag, hgc⟩ | ⟨htag, hgc⟩
     · have : gn = .cnot := by rw [hgncls] at hgc; simpa using hgc
       subst this
